@@ -28,6 +28,8 @@ const HAND: &[&str] = &[
     "a: 1\nb: 2\nc: 3\n",
     "[{a: 1, a: 2}, {a: 3}]\n",
     "a: &x {p: 1}\na: *x\n",
+    "? [!!str 1, 2]\n: x\n? [1, 2]\n: y\n? [!!str 1, 2]\n: z\n",
+    "{? {m : [!!str t]} : 1, ? {m : [t]} : 2, ? {m : [!!str t]} : 3}\n",
 ];
 
 /// structural key identity: kind, scalar text, tag class (by tag text), children; style/anchors ignored
